@@ -36,6 +36,18 @@ Verdict(ev) ==
       [] ev.e = "ImgEq"    -> LET exp == (ev.w1 = ev.w2 /\ ev.h1 = ev.h2 /\ ev.p1 = ev.p2) IN
                               IF ev.eq = exp /\ ev.ne = ~exp THEN {}
                               ELSE {V("P_ImageEquality", "None", ev.type, [a |-> <<ev.w1, ev.h1>>, b |-> <<ev.w2, ev.h2>>, variant |-> ev.variant, eq |-> ev.eq, ne |-> ev.ne])}
+      \* a functor that carries its state by value: the result is that of the row-major loop run with ONE functor object (k-th call sees state k-1),
+      \* and the functor handed back has made one call per pixel
+      [] ev.e = "Stateful" -> LET n == ev.w * ev.h
+                                  exp(i) == CASE ev.algo = "generate" -> (i - 1) % 256
+                                              [] ev.algo = "for_each" -> (ev.s1[i] + (i - 1)) % 256
+                                              [] ev.algo = "transform1" -> (ev.s1[i] + (i - 1)) % 256
+                                              [] ev.algo = "transform2" -> (ev.s1[i] + 2 * ev.s2[i] + (i - 1)) % 256
+                                  key == ev.algo \o ":stateful-functor:" \o ev.shape
+                              IN (IF Len(ev.out) = n /\ \A i \in 1..n : ev.out[i] = exp(i) THEN {}
+                                  ELSE {V("P_CallOrder", "None", key, [w |-> ev.w, h |-> ev.h, out |-> ev.out])})
+                                 \cup (IF ev.retn = -1 \/ ev.retn = n THEN {} ELSE {V("P_CallOrder", "None", key \o ":returned", [w |-> ev.w, h |-> ev.h, calls_of_returned_functor |-> ev.retn])})
+      [] ev.e = "PixEq"    -> IF ev.ret = (ev.p1 = ev.p2) THEN {} ELSE {V("P_EqualResult", "None", "shared-origin:" \o ev.how, [w |-> ev.w, h |-> ev.h, ret |-> ev.ret, p1 |-> ev.p1, p2 |-> ev.p2])}
       [] ev.e = "Compiles" -> IF ev.ok THEN {} ELSE {V("P_Total", "does-not-compile", ev.case, ev.msg)}
       [] ev.e = "Fault"    -> {V("P_NoFault", "None", "driver", ev.kind)}
       [] ev.e = "End"      -> {}
@@ -45,7 +57,7 @@ Init == l = 1 /\ bad = <<>> /\ drift = <<>> /\ nchk = 0
 Step == /\ l <= NTr
         /\ bad' = MergeBad(bad, l, Verdict(Tr[l]))
         /\ drift' = drift
-        /\ nchk' = nchk + (IF Tr[l].e \in {"Algo", "Compiles", "ImgEq"} THEN 1 ELSE 0)
+        /\ nchk' = nchk + (IF Tr[l].e \in {"Algo", "Compiles", "ImgEq", "Stateful", "PixEq"} THEN 1 ELSE 0)
         /\ l' = l + 1
 Fin  == /\ l = NTr + 1 /\ WriteOut(bad, drift, nchk) /\ l' = l + 1 /\ UNCHANGED <<bad, drift, nchk>>
 Next == Step \/ Fin
